@@ -159,8 +159,10 @@ def run_strings(spec, rec, lib):
         else:
             a, cls = gen_string(rng)
         rec.hist("input_class", cls)
+        any_acc = False
         for dotted, oracle, kind in STR_FUNCS:
             acc = judge(dotted, oracle, kind, a, rec, lib, "")
+            any_acc = any_acc or acc is True
             if dotted == "common.is_hex_key" and acc is True and isinstance(a, str):
                 try:
                     b = bytes.fromhex(a)
@@ -172,6 +174,12 @@ def run_strings(spec, rec, lib):
                                   "%r and %r both accepted, same key bytes" % (prev, a),
                                   {"kind": "leaf", "fn": dotted, "arg": a, "vkind": "pred"})
                 accepted_keys[b] = a
+        if any_acc and isinstance(a, str) and i % 2 == 0:
+            # respellings of a string that has just been accepted, in the same process
+            for sb in (a + "\n", a.upper(), " " + a, a + " ", a[:-1], a + "0", "0x" + a, a.encode("ascii", "replace"), [a], a + "\x00"):
+                rec.count("siblings_after_accept")
+                for dotted, oracle, kind in STR_FUNCS:
+                    judge(dotted, oracle, kind, sb if not isinstance(sb, bytes) else {"$py": "bytes", "hex": sb.hex()}, rec, lib, "after-accepting-a-sibling")
         if i % 5 == 0:
             pair_agreement(a, rec, lib)
         if i % 200 == 17:
@@ -233,10 +241,29 @@ def run_entries(spec, rec, lib):
                 e = {"$py": "dictsub", "v": e}
             cls = "mask%d/bad%d" % (mask, nbad)
         rec.hist("entry_class", cls)
+        accepted_somewhere = False
         for dotted, oracle, kind in ENTRY_FUNCS:
-            judge(dotted, oracle, kind, e, rec, lib)
+            if judge(dotted, oracle, kind, e, rec, lib) is True:
+                accepted_somewhere = True
         if i % 3 == 0:
             pair_agreement(e, rec, lib)
+        if accepted_somewhere and type(e) is dict:
+            # related neighbours right after an acceptance (same process): entries that share every field VALUE with the one
+            # just accepted but not its shape - nothing remembered about the accepted entry may vouch for them
+            sibs = [dict(e, comment="x"), dict(e, **{"": None}), dict(reversed(list(e.items())))]
+            for opt in ("other_headers", "see_also"):
+                if opt not in e:
+                    sibs.append(dict(e, **{opt: None}))
+                    sibs.append(dict(e, **{opt: ""}))
+            if "see_also" in e:
+                sibs.append({k: v for k, v in e.items() if k != "other_headers"})
+            sibs.append({k: v for k, v in e.items() if k != "signature"})
+            sibs.append(list(e.items()))
+            sibs.append({"$py": "tuple", "items": [[k, v] for k, v in e.items()]})
+            for sb in sibs:
+                rec.count("siblings_after_accept")
+                for dotted, oracle, kind in ENTRY_FUNCS:
+                    judge(dotted, oracle, kind, sb, rec, lib, "after-accepting-a-sibling")
         if i < 2:
             rec.sample({"entry": e})
 
